@@ -56,6 +56,7 @@ type Req struct {
 type Resp struct {
 	Echo, Mark                     int64
 	F0, F1, F2, F3, F4, F5, F6, F7 int64
+	G0, G1, G2, G3, G4, G5, G6, G7 int64
 }
 
 type Nobj struct{ X int64 }
@@ -258,7 +259,7 @@ func (h *H) Data() map[string]interface{} {
 		needVA, needVC := rd.Ret == RetKind || rd.Ret == RetTopKind, false
 		for _, s := range rd.Secs {
 			switch s.Kind {
-			case SecAsgKind, SecArg, SecForStep:
+			case SecAsgKind, SecArg, SecForStep, SecSetKind:
 				needVA = true
 			case SecDiv:
 				if fk == SecDiv {
@@ -272,7 +273,7 @@ func (h *H) Data() map[string]interface{} {
 				} else if _, ok := d[fmt.Sprintf("VI%d", id)]; !ok {
 					d[fmt.Sprintf("VI%d", id)] = int64(1)
 				}
-			case SecNil, SecIfNil:
+			case SecNil, SecIfNil, SecSetNil:
 				if fk == s.Kind {
 					d[fmt.Sprintf("N%d", id)] = (*Nobj)(nil)
 				} else if _, ok := d[fmt.Sprintf("N%d", id)]; !ok {
@@ -301,7 +302,7 @@ func (h *H) Data() map[string]interface{} {
 			d[fmt.Sprintf("VF%d", id)] = false
 		}
 		if needVA {
-			if fk == SecAsgKind || fk == SecArg || fk == SecForStep || retFire {
+			if fk == SecAsgKind || fk == SecArg || fk == SecForStep || fk == SecSetKind || retFire {
 				d[fmt.Sprintf("VA%d", id)] = "s"
 			} else {
 				d[fmt.Sprintf("VA%d", id)] = int64(1)
